@@ -106,18 +106,50 @@ def encode(spec, rng, endian=1, tail=0, template=None, flip=0.3):
 
 
 def modes_of(name, cpu):
-    """decode-mode selectors of an ISA: list of (label, setter callable)."""
+    """decode-mode selectors of an ISA: list of (label, setter callable).  A setter
+    sets *every* mode variable of the ISA, so a label fully selects the decode mode."""
     if name.endswith("cpu_armv7"):
         env = importlib.import_module("amoco.arch.arm.v7.env")
 
-        def mk(v):
+        def mk(iset, it, be):
             def f():
-                env.internals["isetstate"] = v
+                env.internals["isetstate"] = iset
+                env.internals["itstate"] = it
+                env.internals["ibigend"] = be
 
             return f
 
-        return [("arm", mk(0)), ("thumb", mk(1))]
+        return [("arm", mk(0, 0, 0)), ("thumb", mk(1, 0, 0)), ("thumb-it", mk(1, 0b0100, 0)), ("arm-be", mk(0, 0, 1))]
+    if name.endswith("cpu_armv8"):
+        env = importlib.import_module("amoco.arch.arm.v8.env64")
+
+        def mk8(be):
+            def f():
+                env.internals["ibigend"] = be
+
+            return f
+
+        return [("default", mk8(0)), ("be", mk8(1))]
+    if name.endswith(("cpu_x86", "cpu_x64")):
+        env = importlib.import_module("amoco.arch.x86.env" if name.endswith("cpu_x86") else "amoco.arch.x64.env")
+
+        def mkx(bits):
+            def f():
+                env.internals["mode"] = bits
+
+            return f
+
+        if name.endswith("cpu_x86"):
+            return [("default", mkx(32)), ("m16", mkx(16))]
+        return [("default", mkx(64)), ("m32", mkx(32)), ("m16", mkx(16))]
     return [("default", lambda: None)]
+
+
+def mode_set(name, label):
+    """index of the spec set (disassembler.specs[k]) a decode mode selects"""
+    if name.endswith("cpu_armv7") and label.startswith("thumb"):
+        return 1
+    return 0
 
 
 def insn_endian(cpu):
